@@ -110,7 +110,7 @@ theorem splitEffects_eq (simp dnfOf : Expr → Expr) : ∀ (effs : List Effect) 
       rw [splitEffects_eq simp dnfOf es acc' _ E h]
       simp [List.append_assoc]
 
-/-- the decidable hypothesis that excludes the cause of D-C06b: no conditional increase / decrease
+/-- the decidable hypothesis that excludes the cause of D-C37-overlapping-disjuncts: no conditional increase / decrease
     has a condition whose simplified DNF is a disjunction -/
 def NoIncDecSplit (simp dnfOf : Expr → Expr) (effs : List Effect) : Prop :=
   ∀ e ∈ effs, e.isConditional = true → e.kind ≠ .assign → isOr (simp (dnfOf e.cond)) = false
